@@ -373,6 +373,9 @@ class Gamma(Baseloss_Type):
             :math:`\\frac{a \\left(\\hat{y} - y\\right)}{\\hat{y}^{2}}`
 
         '''
+        if len(yhat.shape) > 1:
+            if 1 in yhat.shape:
+                yhat = yhat.ravel()
         shape = self._shape
         residual = self.residual(yhat, apply_weighting)
         return shape*-residual/yhat**2
